@@ -225,7 +225,7 @@ impl Ctx {
             let _ = std::fs::create_dir_all(&dir);
         }
         for (i, v) in unlisted.iter().enumerate() {
-            let path = dir.join(format!("{}-{}.json", self.tier.name(), i));
+            let path = dir.join(format!("{}{}-{}.json", if self.build == "wrapping" { "wrapping-" } else { "" }, self.tier.name(), i));
             let body = json!({
                 "property": self.id, "tier": self.tier.name(), "seed": self.seed,
                 "build": self.build, "key": v.key, "what": v.what, "case": v.case,
@@ -233,7 +233,7 @@ impl Ctx {
             if std::fs::write(&path, serde_json::to_string_pretty(&body).unwrap()).is_err() {
                 machinery_error("cannot write replay file");
             }
-            let rel = format!("replays/{}/{}-{}.json", self.id, self.tier.name(), i);
+            let rel = format!("replays/{}/{}{}-{}.json", self.id, if self.build == "wrapping" { "wrapping-" } else { "" }, self.tier.name(), i);
             if i < 25 {
                 println!("VIOLATION property={} replay={} :: {} [{}]", self.id, rel, v.what, v.key);
             }
@@ -300,7 +300,9 @@ impl Ctx {
         });
         let evdir = self.verif_root.join("evidence");
         let _ = std::fs::create_dir_all(&evdir);
-        let evpath = evdir.join(format!("{}.json", self.id));
+        // the plain-release ("wrapping") build is an additional pass of some thorough checks; its
+        // evidence goes next to the main file, which is always written by the overflow-checked build
+        let evpath = if self.build == "wrapping" { evdir.join(format!("{}.wrapping.json", self.id)) } else { evdir.join(format!("{}.json", self.id)) };
         if std::fs::write(&evpath, serde_json::to_string_pretty(&ev).unwrap()).is_err() {
             machinery_error("cannot write evidence file");
         }
